@@ -249,6 +249,7 @@ class Server:
         self.extra_binds = extra_binds
         self.extra_ports = []
         self.extra_unix_path = os.path.join(self.dir, "g2.sock") if extra_unix else None
+        self.preexec_fn = None            # run in the master between fork and exec (e.g. to drop capabilities)
         self.app_in_conf = False          # True: the application is named by wsgi_app in the configuration file, not on the command line
         with open(os.path.join(self.dir, "app.py"), "w") as f:
             f.write(APP_SRC)
@@ -290,7 +291,7 @@ class Server:
             # gunicorn/__main__.py, which puts the package directory (with its own http/ package) first on sys.path
             self.proc = subprocess.Popen([PY, "/venv/bin/gunicorn", "-c", self.conf] + ([] if self.app_in_conf else ["app:app"]), cwd=self.dir, env=env,
                                          stdin=subprocess.DEVNULL, stdout=open(os.path.join(self.dir, "stdout.log"), "ab"),
-                                         stderr=subprocess.STDOUT, start_new_session=True)
+                                         stderr=subprocess.STDOUT, start_new_session=True, preexec_fn=self.preexec_fn)
             self.master_pid = self.proc.pid
             end = time.time() + wait
             while time.time() < end:
